@@ -56,6 +56,7 @@ type Interp struct {
 	St        *smt.Store
 	Sol       *smt.Solver
 	gs        []gframe
+	syncMaps  map[syncMapKey]*MapVal
 	nextGID   int
 	Valid     *smt.Term // accumulated assumptions (assumes, absence of earlier panics)
 	Obls      []*Obligation
